@@ -17,9 +17,9 @@ CONSTANTS
   T = 2
   DNST = 3
   Ticks = {1, 2}
-  MaxNow = 5
+  MaxNow = 4
   MaxDg = 3
-  MaxRp = 2
+  MaxRp = 1
   MaxAssoc = 3
   Slack = 0
   Bound = 0
